@@ -332,3 +332,48 @@ Theorem C19_den_notnone_gate_refuted :
   /\ impl_gpixel code_gate ITerm2 None a_green rgba_file 2 px_clear (0, 255, 0, 255)%Z = true.
 Proof. exact notnone_gate_refuted. Qed.
 Print Assumptions C19_den_notnone_gate_refuted.
+
+(** * Round 9 — WHICH error a rejected specifier raises (model/FmtErr.v) *)
+From TI Require Import model.FmtErr proofs.FmtErrProofs.
+
+(** the documented precedence among the documented errors, as a function of the text and
+    the style ([spec_error]: not of the general form -> "Invalid format specifier"
+    (ValueError); style part not a sentence of the style's grammar -> StyleError; a field
+    of a sentence out of its range -> ValueError), is total: it is silent exactly on the
+    accepted specifiers and names an error for every rejected one *)
+Theorem C19_spec_error_total : forall sty s,
+  (spec_error sty s = None <-> spec_accepts sty s = true)
+  /\ (spec_accepts sty s = false -> exists k, spec_error sty s = Some k).
+Proof. exact spec_error_total. Qed.
+Print Assumptions C19_spec_error_total.
+
+(** the call chain of _check_style_format_spec (invalid portion, then the parent portion
+    judged by the parent classes, then the value checks of the level's own fields), for
+    EVERY hierarchy of levels and every text: it raises what the documentation demands
+    stated without any order of processing (sentence-hood first, then ranges); a text that
+    is not a sentence is a StyleError whatever its field values are; and the result does
+    not depend on the order in which the own fields' checks are listed *)
+Theorem C19_error_precedence_parent_first :
+  (forall lv t, chain lv t = doc_chain_error lv t)
+  /\ (forall lv t, sentence lv t = false -> chain lv t = Some EStyle)
+  /\ (forall l l' up t, same_up_to_check_order l l' -> chain (l :: up) t = chain (l' :: up) t).
+Proof. exact error_precedence_parent_first. Qed.
+Print Assumptions C19_error_precedence_parent_first.
+
+(** the excluded design 'own fields first' is the code on every text with at most one
+    kind of fault (a sentence, or all fields in range) ... *)
+Theorem C19_error_own_first_invisible : forall lv t,
+  (sentence lv t = true \/ ranges_ok lv t = true) -> chain_own_first lv t = chain lv t.
+Proof. exact own_first_invisible. Qed.
+Print Assumptions C19_error_own_first_invisible.
+
+(** ... and raises ValueError where StyleError is documented on kitty's "+xz4294967296" *)
+Theorem C19_error_own_first_refuted :
+  sentence (levels Kitty) two_faults = false
+  /\ chain (levels Kitty) two_faults = Some EStyle
+  /\ chain_own_first (levels Kitty) two_faults = Some ERange
+  /\ spec_error Kitty (43%N :: two_faults) = Some EStyle
+  /\ impl_error Kitty (43%N :: two_faults) = Some EStyle
+  /\ class_of ERange <> class_of EStyle.
+Proof. exact own_first_refuted. Qed.
+Print Assumptions C19_error_own_first_refuted.
